@@ -35,7 +35,7 @@ for pid in sorted(props):
     for n in [pid+'-'+x for x in MS]:
         prev.append(json.load(open('/verif/seeded/%s/meta.json'%n)).get('change',''))
     body="%s: %s\n\nStatement: %s\n\nQuantification: %s\n\n\n"%(pid,d['title'],d['statement'],d['quantifier']['text'])
-    cons="ADDITIONAL CONSTRAINT: earlier attempts already used these changes:\n"+"\n".join(' - "%s"'%c for c in prev)+"\nAlso already used elsewhere: moving ReadCommit before processIncoming in the processor; dropping the mutexes around the broadcasts in buffer.Close; reading the first packet with a single Read; RLock instead of Lock in topics Subscribe/Unsubscribe; copy-offset slips in Ackqueue.grow; an early EOF in buffer.ReadWait on a closed ring; restoring stored subscriptions after the goroutines started; returning from the fan-out loop at the first failing subscriber; leaking the topic tree's read lock on an error path; publishing the session's will instead of the connection's; reusing the slice Ackqueue.Acked returned; writing a request before registering it in the ack queue; not resetting a field when a message object is decoded into a second time; waiting for more ring space than the ring has; pruning slips in snode.sremove; a ring size that is not a power of two; the 65536th request of a connection; a serial accept loop; a result slice that is not reset; bytes kept by Encode and not refreshed after an in-place setter; parallel slices or two map iterations getting out of step; a clamp applied after the value was stored; a length computed before the remaining length was set; reserved header bits checked before they are read; a buffer recycled while a message still points into it; the caller's message object used where the registered copy should be; authentication moved behind the session lookup.\nYours must be clearly different from all of them: a different function (preferably a different file), a different mechanism, and a different way of manifesting. Prefer a change whose effect depends on timing, on a fault/disconnect at a particular moment, on ordering between two connections (including two connections that use the same client identifier for a while), on several goroutines using one object, on a slow or fragmenting transport, on a multi-step history, on reuse of an object, or on an unusual but legal configuration, value or size, over a slip the first ordinary use would show.\n"
+    cons="ADDITIONAL CONSTRAINT: earlier attempts already used these changes:\n"+"\n".join(' - "%s"'%c for c in prev)+"\nAlso already used elsewhere: moving ReadCommit before processIncoming in the processor; dropping the mutexes around the broadcasts in buffer.Close; reading the first packet with a single Read; RLock instead of Lock in topics Subscribe/Unsubscribe; copy-offset slips in Ackqueue.grow; an early EOF in buffer.ReadWait on a closed ring; restoring stored subscriptions after the goroutines started; returning from the fan-out loop at the first failing subscriber; leaking the topic tree's read lock on an error path; publishing the session's will instead of the connection's; reusing the slice Ackqueue.Acked returned; writing a request before registering it in the ack queue; not resetting a field when a message object is decoded into a second time; waiting for more ring space than the ring has; pruning slips in snode.sremove; a ring size that is not a power of two; the 65536th request of a connection; a serial accept loop; a result slice that is not reset; bytes kept by Encode and not refreshed after an in-place setter; parallel slices or two map iterations getting out of step; a clamp applied after the value was stored; a length computed before the remaining length was set; reserved header bits checked before they are read; a buffer recycled while a message still points into it; the caller's message object used where the registered copy should be; authentication moved behind the session lookup; an ack-queue slot cleared before its identifier is read; a QoS 1 message handed on before its PUBACK is built; a decoded packet's byte slice sized by the canonical header length; WriteTo (or the receiver) no longer closing the ring when the transport fails; a retained-tree walk that stops at a node holding a message; repeated filters merged by a decoder; the retain flag cleared on one forwarding path only; a read time-out treated as an ordinary end; a store entry deleted under a still-empty client identifier; Session.Update keeping the shorter buffer of an earlier CONNECT; the PINGREQ slot of the ack queue touched without its mutex; ring space reserved before the write mutex is taken; a broadcast skipped when a TryLock fails; Client.Disconnect writing straight to the socket.\nYours must be clearly different from all of them: a different function (preferably a different file), a different mechanism, and a different way of manifesting. Prefer a change whose effect depends on timing, on a fault/disconnect at a particular moment, on ordering between two connections (including two connections that use the same client identifier for a while), on several goroutines using one object, on a slow or fragmenting transport, on a multi-step history, on reuse of an object, or on an unusual but legal configuration, value or size, over a slip the first ordinary use would show.\n"
     s=(head+body+tail+cons).replace('/tmp/w8-','/tmp/w'+R+'-').replace('PID',pid)
     open('/tmp/prompt'+R+'-%s.txt'%pid,'w').write(s)
     subprocess.run("git -C /repo worktree add -q --detach /tmp/w"+R+"-%s HEAD"%pid,shell=True)
